@@ -22,6 +22,18 @@ CHECKS = {
     ),
 }
 
+CHECKS["C15"] = (
+    "Coq proof (lists, Permutation) about a hand-written executable model + certificate soundness; exact vm_compute correspondence with witness permutations",
+    "Model/RVData.v models construction (common mask, common sort), reference epoch, ivar, copy and slicing. Theorems: the model keeps exactly "
+    "the (finite) observations time-ordered; an accepted certificate (init_check, init_check_cov, copy_check, slice_check) implies the "
+    "implementation's rows are a permutation of the kept input rows with each time paired with its own velocity/error/covariance row+column, "
+    "sorted, default epoch = earliest time. Every run Coq evaluates those certificates on the implementation's actual outputs for random "
+    "inputs (NaN/inf placements, duplicates, units, Time/float, covariance) and the harness runs the independent predicate.",
+    "Trusted: Coq kernel + vm_compute; harness recovery of the applied permutation from unique velocity tags; astropy Time/units; "
+    "np.linalg.inv up to the checked product cov*ivar=I (1e-8). Floating point enters only as exact dyadic rationals.",
+    "DESIGN.md 3 (C15)",
+)
+
 NOT_YET = {}
 
 
